@@ -145,6 +145,8 @@ def main():
     workdir = os.path.join(BUILD, 'run', pid)
     os.makedirs(workdir, exist_ok=True)
     os.makedirs(os.path.join(ROOT, 'evidence', 'replay'), exist_ok=True)
+    for old in os.listdir(os.path.join(ROOT, 'evidence', 'replay')):
+        if old.startswith(pid + '-'): os.remove(os.path.join(ROOT, 'evidence', 'replay', old))
     spec = F.PROPERTIES[pid]
 
     violations = []      # dicts: what, replay (dict), no_input (bool)
